@@ -625,7 +625,11 @@ def build_array(sym, terms, bases, imaps_site, rng):
     import symmray as sr
 
     t, b = to_sr(terms, bases, rng)
-    return sr.build_local_fermionic_array(t, b, sym, [list(m) for m in imaps_site])
+    # index maps as sequences or as dicts (the documented type), independently per site
+    maps = [dict(enumerate(m)) if rng.random() < 0.5 else list(m) for m in imaps_site]
+    if rng.random() < 0.3:
+        maps = [dict(enumerate(m)) for m in imaps_site]
+    return sr.build_local_fermionic_array(t, b, sym, maps)
 
 
 def herm_terms(terms):
@@ -702,60 +706,64 @@ def action_chunk(seed, chunk, n):
         if any("non-zero elements" in str(w.message) for w in wl):
             res["problems"].append("from_dense discarded non-zero elements of a symmetric operator")
         dims = [len(b) for b in bases]
-        N = len(idxs)
-        # dense form: documented bra convention  M = D.H
-        for nm, G, H in (("G1", G1, H1), ("G21", G21, H21), ("Gh", Gh, Hh)):
-            if not np.array_equal(lin_tensor(G, imaps_site * 2).reshape(N, N), D[:, None] * H):
-                res["problems"].append(f"dense form of {nm} differs from sign(bra) x Fock matrix")
-        # arrays composed = array of the product operator
-        ax = [tuple(range(ns, 2 * ns)), tuple(range(ns))]
-        G2G1 = sr.tensordot(G2, G1, axes=ax)
-        if not np.array_equal(lin_tensor(G2G1, imaps_site * 2), lin_tensor(G21, imaps_site * 2)):
-            res["problems"].append("tensordot(G2, G1) differs from the array of the product operator")
-        # state tensors of every total charge
-        site_ix = [sr.BlockIndex({c: len(g) for c, g in charge_groups(m).items()}, dual=False)
-                   for m in imaps_site]
-        extra_ix = gen.rand_index(rng, sym, 2, 2) if case["extra"] else None
-        indices = site_ix + ([extra_ix] if extra_ix is not None else [])
-        duals = [False] * ns + ([extra_ix.dual] if extra_ix is not None else [])
-        charges = sorted({gen.py_sector_charge(sym, s, duals)
-                          for s in itertools.product(*[sorted(ix.chargemap) for ix in indices])})
-        ex_map = [] if extra_ix is None else [[c for c in sorted(extra_ix.chargemap)
-                                               for _ in range(extra_ix.chargemap[c])]]
-        maps = imaps_site + ex_map
-        for charge in charges:
-            psi = gen.rand_array(rng, sym, indices=indices, fermi=True, charge=charge,
-                                 keep=rng.choice([0.6, 1.0]), label=rng.randint(1, 50),
-                                 pending=rng.random() < 0.3)
-            v = lin_tensor(psi, maps).reshape(N, -1)
-            o1 = sr.tensordot(G1, psi, axes=ax)
-            o21 = sr.tensordot(G2, o1, axes=ax)
-            o21b = sr.tensordot(G21, psi, axes=ax)
-            w1 = lin_tensor(o1, maps).reshape(N, -1)
-            w21 = lin_tensor(o21, maps).reshape(N, -1)
-            w21b = lin_tensor(o21b, maps).reshape(N, -1)
-            res["napplied"] += 1
-            key = f"c:{sym}:parity{gen.py_parity(sym, charge)}"
-            res["stats"][key] = res["stats"].get(key, 0) + 1
-            if not np.array_equal(w21, w21b):
-                res["problems"].append(f"charge {charge}: applying G1 then G2 differs from applying the array of the product")
-            if not (np.array_equal(w1, conj(H1) @ v) and np.array_equal(w21b, conj(H21) @ v)):
-                res["convention_only"].append(f"charge {charge}: tensordot(G, psi) differs from D.H.D psi")
-            if np.any(D < 0) and np.any(w1 != 0):
-                res["nontrivial"] = True
-        # Hermitian term set -> Hermitian map with the exact spectrum
-        if N <= 16:
-            A = action_matrix(Gh, sym, imaps_site, rng)
-            if not np.array_equal(A, A.conj().T):
-                res["problems"].append("Hermitian term set gives a non-Hermitian map")
-            else:
-                ev = np.linalg.eigvalsh(A)
-                ev0 = np.linalg.eigvalsh(Hh)
-                if not np.allclose(ev, ev0, atol=1e-9 * max(1.0, np.abs(ev0).max())):
-                    res["problems"].append("spectrum of the map differs from the spectrum of the operator")
-            if not np.array_equal(A, conj(Hh)):
-                res["convention_only"].append("action matrix of the Hermitian operator differs from D.H.D")
-            res["stats"]["c:spectra"] = 1
+        try:
+            N = len(idxs)
+            # dense form: documented bra convention  M = D.H
+            for nm, G, H in (("G1", G1, H1), ("G21", G21, H21), ("Gh", Gh, Hh)):
+                if not np.array_equal(lin_tensor(G, imaps_site * 2).reshape(N, N), D[:, None] * H):
+                    res["problems"].append(f"dense form of {nm} differs from sign(bra) x Fock matrix")
+            # arrays composed = array of the product operator
+            ax = [tuple(range(ns, 2 * ns)), tuple(range(ns))]
+            G2G1 = sr.tensordot(G2, G1, axes=ax)
+            if not np.array_equal(lin_tensor(G2G1, imaps_site * 2), lin_tensor(G21, imaps_site * 2)):
+                res["problems"].append("tensordot(G2, G1) differs from the array of the product operator")
+            # state tensors of every total charge
+            site_ix = [sr.BlockIndex({c: len(g) for c, g in charge_groups(m).items()}, dual=False)
+                       for m in imaps_site]
+            extra_ix = gen.rand_index(rng, sym, 2, 2) if case["extra"] else None
+            indices = site_ix + ([extra_ix] if extra_ix is not None else [])
+            duals = [False] * ns + ([extra_ix.dual] if extra_ix is not None else [])
+            charges = sorted({gen.py_sector_charge(sym, s, duals)
+                              for s in itertools.product(*[sorted(ix.chargemap) for ix in indices])})
+            ex_map = [] if extra_ix is None else [[c for c in sorted(extra_ix.chargemap)
+                                                   for _ in range(extra_ix.chargemap[c])]]
+            maps = imaps_site + ex_map
+            for charge in charges:
+                psi = gen.rand_array(rng, sym, indices=indices, fermi=True, charge=charge,
+                                     keep=rng.choice([0.6, 1.0]), label=rng.randint(1, 50),
+                                     pending=rng.random() < 0.3)
+                v = lin_tensor(psi, maps).reshape(N, -1)
+                o1 = sr.tensordot(G1, psi, axes=ax)
+                o21 = sr.tensordot(G2, o1, axes=ax)
+                o21b = sr.tensordot(G21, psi, axes=ax)
+                w1 = lin_tensor(o1, maps).reshape(N, -1)
+                w21 = lin_tensor(o21, maps).reshape(N, -1)
+                w21b = lin_tensor(o21b, maps).reshape(N, -1)
+                res["napplied"] += 1
+                key = f"c:{sym}:parity{gen.py_parity(sym, charge)}"
+                res["stats"][key] = res["stats"].get(key, 0) + 1
+                if not np.array_equal(w21, w21b):
+                    res["problems"].append(f"charge {charge}: applying G1 then G2 differs from applying the array of the product")
+                if not (np.array_equal(w1, conj(H1) @ v) and np.array_equal(w21b, conj(H21) @ v)):
+                    res["convention_only"].append(f"charge {charge}: tensordot(G, psi) differs from D.H.D psi")
+                if np.any(D < 0) and np.any(w1 != 0):
+                    res["nontrivial"] = True
+            # Hermitian term set -> Hermitian map with the exact spectrum
+            if N <= 16:
+                A = action_matrix(Gh, sym, imaps_site, rng)
+                if not np.array_equal(A, A.conj().T):
+                    res["problems"].append("Hermitian term set gives a non-Hermitian map")
+                else:
+                    ev = np.linalg.eigvalsh(A)
+                    ev0 = np.linalg.eigvalsh(Hh)
+                    if not np.allclose(ev, ev0, atol=1e-9 * max(1.0, np.abs(ev0).max())):
+                        res["problems"].append("spectrum of the map differs from the spectrum of the operator")
+                if not np.array_equal(A, conj(Hh)):
+                    res["convention_only"].append("action matrix of the Hermitian operator differs from D.H.D")
+                res["stats"]["c:spectra"] = 1
+        except Exception as e:  # noqa  (e.g. blocks filed under sectors the index maps do not imply)
+            res["problems"].append(f"observing the built arrays failed: {type(e).__name__}: {e} (blocks are not filed "
+                                   f"under the sectors the supplied index maps imply?)")
         results.append(res)
     return results
 
